@@ -73,6 +73,23 @@ def run_jobs(ctx, drv, test, jobs, env=None, timeout=900, tag="jobs", max_kills=
     return results
 
 
+def run_jobs_par(ctx, drv, test, jobs, shards=8, **kw):
+    """run_jobs over contiguous shards of the job list in parallel driver processes (jobs must be independent of each other)"""
+    import concurrent.futures
+    if len(jobs) < 2 * shards:
+        return run_jobs(ctx, drv, test, jobs, **kw)
+    n = (len(jobs) + shards - 1) // shards
+    parts = [jobs[i:i + n] for i in range(0, len(jobs), n)]
+    tag = kw.pop("tag", "jobs")
+    with concurrent.futures.ThreadPoolExecutor(max_workers=shards) as ex:
+        outs = list(ex.map(lambda kp: run_jobs(ctx, drv, test, kp[1], tag="%s_s%d" % (tag, kp[0]), **kw), enumerate(parts)))
+    res = [r for o in outs for r in o]
+    for i, (j, r) in enumerate(zip(jobs, res)):
+        j["id"] = i
+        r["id"] = i
+    return res
+
+
 def norm_recs(recs):
     """records as comparable tuples"""
     return [[(f["i"], tuple(f["e"]), f["v"]["k"], tuple(f["v"]["o"])) for f in rec] for rec in recs]
